@@ -67,6 +67,42 @@ CHECKS = {
               "files shows the directly patched tree."),
         technique="TLA+ lock-step stub model checked by TLC + trace validation of manifest/stub histories on IH5MFRecord",
         design="4/C10"),
+    "C06": dict(
+        text=("The bookkeeping algorithm (register/unregister with schema and package reference counting, fresh uuids on copy, "
+              "re-targeting on move, the incrementally maintained schema index) is modelled in TLA+ and TLC checks TOCSync and "
+              "IndexEqRebuild in every reachable state for bounded histories (five bookkeeping mutants must be killed); the code is "
+              "bound by trace validation of seeded histories executed in lock step on h5py.File, IH5Record and IH5MFRecord: after "
+              "every successful or refused operation the complete raw state and the live vs rebuilt index are judged by TLC."),
+        technique="TLA+ bookkeeping model (MC_Container) checked by TLC + trace validation of raw container state on three drivers",
+        design="4/C06"),
+    "C07": dict(
+        text=("Container.tla defines Query/Matches declaratively; TLC proves on the bookkeeping model that the mechanism of "
+              "MetadorMeta.query (live index children/versions + intersection) computes exactly Query in every reachable state; "
+              "the code is bound by trace validation: after every step all stored objects are fetched by own and ancestor schemas "
+              "and sampled container/group-level queries with version arguments are compared by TLC with Query over the logged state."),
+        technique="TLA+ declarative Query vs index mechanism checked by TLC + trace validation of get/query results",
+        design="4/C07"),
+    "C08": dict(
+        text=("User operations act on the user tree exactly as H5Tree!Apply whatever metadata operations are interleaved (TLC on the "
+              "model; trace validation of the projection through every listing primitive on three drivers); a catalogue of "
+              "path-taking methods derived from the H5GroupLike protocol and dir(MetadorGroup) is probed with nine reserved path "
+              "shapes, and every raw attribute the interface does not define, each judged by TLC: refused and raw state unchanged."),
+        technique="TLA+ reference tree + trace validation of user-visible projection + enumerated reserved-path/pass-through probes judged by the specification",
+        design="4/C08"),
+    "C09": dict(
+        text=("The reference (H5Tree + Container) is deterministic in its user-visible part, so two drivers that are both traces of it "
+              "agree; the same generated sequence is executed in lock step on h5py.File, IH5Record and IH5MFRecord with independent "
+              "random patch boundaries and reopen points, each driver is validated against the reference and TLC evaluates the "
+              "three-way clause drivers_agree on every step."),
+        technique="Trace validation of lock-step executions on three drivers against one deterministic TLA+ reference + three-way agreement clause",
+        design="4/C09"),
+    "C20": dict(
+        text=("SelfDescribing is an invariant of the bookkeeping model (TLC); in validated histories over a multi-version, three-level, "
+              "two-package schema family the embedded JSON Schema digest, parent chain and provider of every used schema are "
+              "compared by TLC with what the plugin system reports, every stored object is validated against the embedded schema, "
+              "and a freshly constructed container object must report the same index as the live one."),
+        technique="TLA+ invariant SelfDescribing checked by TLC + trace validation of embedded schema/package records against the plugin environment",
+        design="4/C20"),
 }
 
 NOT_YET = "check not built yet (work in progress)"
